@@ -26,7 +26,7 @@ DIMS = OrderedDict([
     ("nv", [8, 6, 12]),                       # orders are admissible only below the number of sampled volumes (canon drops the rest)
     ("weights", ["increasing", "equal", "int", "scaled"]),
     ("qorder", [3, 4, 5]),                    # order of the QHA layer's own finite-strain fit
-    ("pgrid", ["p2", "pfrac"]),
+    ("pgrid", ["p2", "pfrac", "at-limit"]),     # at-limit: the largest NTV whose top pressure is still inside the computed range (within one DELTA_P of its end)
 ])
 PGRIDS = {"p2": dict(NTV=31, DELTA_P=2.0, DELTA_P_SAMPLE=2.0), "pfrac": dict(NTV=27, DELTA_P=0.75, DELTA_P_SAMPLE=2.25, P_MIN=-1.5)}
 AVG = ["bulk_modulus_voigt", "bulk_modulus_reuss", "bulk_modulus_voigt_reuss_hill", "shear_modulus_voigt",
@@ -38,11 +38,31 @@ def run_case(case):
     spec = dict(nv=case.get("nv", 8), nq=case["shape"][0], na=case["shape"][1], lattice=case["lattice"],
                 system=case["system"], compset=case["compset"], static="generic", weights=case.get("weights", "increasing"), wset=case["wset"],
                 interpolator=method, order=order)
-    spec["qha"] = dict(TGRIDS[case["tgrid"]], **PGRIDS[case.get("pgrid", "p2")], order=case.get("qorder", 3))
+    spec["qha"] = dict(TGRIDS[case["tgrid"]], **PGRIDS["p2" if case.get("pgrid") == "at-limit" else case.get("pgrid", "p2")], order=case.get("qorder", 3))
     synth.VOLUME_SETS.setdefault(8, [320.0, 308.0, 296.0, 284.0, 272.0, 260.0, 248.0, 236.0])
     viol = []
     with K.scratch() as d:
         ds, st = synth.write(d, spec)
+        if case.get("pgrid") == "at-limit":
+            from mc.ref import pipeline_ref as P
+            from mc.explore import repo_root
+            try:
+                reach = P.Pipeline(d, repo_root(), laws=ds["laws"]).p_reach_gpa     # an independently driven qha instance
+                dp = 5.0
+                for _ in range(6):          # the fine volume grid (hence the reach) depends on NTV: iterate to the fixed point
+                    ntv = int(numpy.floor((reach - 1e-9 * abs(reach)) / dp)) + 1
+                    spec["qha"].update(P_MIN=0, DELTA_P=dp, DELTA_P_SAMPLE=dp, NTV=ntv)
+                    ds, st = synth.write(d, spec)
+                    ref = P.Pipeline(d, repo_root(), laws=ds["laws"])
+                    if ref.p_reach_gpa - dp < ref.p_desired_max_gpa <= ref.p_reach_gpa:
+                        break
+                    reach = ref.p_reach_gpa
+                else:
+                    raise HarnessError(f"at-limit grid misplaced: top {ref.p_desired_max_gpa} reach {ref.p_reach_gpa}")
+            except HarnessError:
+                raise
+            except Exception as ex:
+                raise HarnessError(f"reference qha run failed: {ex!r}")
         try:
             from cij.io import read_config
             read_config(os.path.join(d, "settings.yaml"))       # the configuration must be schema-valid
